@@ -198,7 +198,7 @@ func (r *router) routeRequest(ctx context.Context, ch chan rrErr, urlMatch *urlM
 	retryRule := requestsResult.retryRule
 
 	var bodyData []byte
-	if twoTargets || canRetry {
+	if twoTargets || canRetry || retryRule != nil {
 		logctx.WithFields(apexlog.Fields{"twoTargets": twoTargets, "canRetry": canRetry}).Debug("Both copy and proxy targets found or request was retryable, reading request body to memory")
 		var err error
 		bodyData, err = ioutil.ReadAll(req.Body)
@@ -250,6 +250,10 @@ func (r *router) routeRequest(ctx context.Context, ch chan rrErr, urlMatch *urlM
 			if err != nil {
 				ch <- rrErr{nil, err}
 				return
+			}
+			if bodyData != nil {
+				// The request body has been consumed by the attempt above: hand the retry rule a fresh reader
+				req.Body = newByteSliceBody(bodyData)
 			}
 			r.routeRequest(ctx, ch, urlMatch, req, nil, nil, logctx)
 			return
